@@ -42,7 +42,14 @@ type typ struct {
 	Propagate  int               // 0: absent, 1: @propagate true, 2: @propagate false (explicit)
 	Shadow     map[string]tdefn  // extra (re)definitions placed in the type-scoped context
 	LocalCtx   map[string]string // term -> IRI redefined by a local @context inside nodes of this type
+	Second     *typ              // nodes of this type also carry this second (type-scoped) type
+	Redecl     *redecl           // this type's scoped context re-declares ANOTHER type term with another scoped context
 }
+
+// redecl: {"<Term>": {"@id": IRI, "@context": {"<Field>": FieldIRI}}} inside a type-scoped context.  JSON-LD looks
+// every @type value of a node up in the context active BEFORE the node's type-scoped contexts, so it has no effect
+// on the node that carries both types.
+type redecl struct{ Term, IRI, Field, FieldIRI string }
 
 // leaf: one field of the document reachable by a dotted path.
 type leaf struct {
@@ -72,6 +79,7 @@ type nodeInfo struct {
 	TypeIRI    string   `json:"type_iri"`
 	IsType     bool     `json:"is_type"`     // the type term carries a scoped context (TypeIDFromContext accepts it)
 	TopVisible bool     `json:"top_visible"` // the type term is defined at the top level of the context document
+	Multi      bool     `json:"multi"`       // the node carries several types (rdf:type entries are indexed)
 }
 
 type gdoc struct {
@@ -204,6 +212,43 @@ func (g *gen) heteroSchema() *typ {
 	return t
 }
 
+// dualSchema: a node carrying two type-scoped types; the scoped context of the type that sorts first
+// re-declares the term of the other type with a different scoped context (which must have no effect).
+func (g *gen) dualSchema() *typ {
+	mk := func() *typ {
+		a := &typ{Term: g.term("T"), TypeScoped: true}
+		a.IRI = vocab + a.Term
+		n := 1 + g.r.Intn(2)
+		for i := 0; i < n; i++ {
+			p := &prop{Term: g.term("p"), Kind: "lit", DT: []string{"", xsd + "string", xsd + "integer"}[g.r.Intn(3)]}
+			p.IRI = vocab + p.Term
+			a.Props = append(a.Props, p)
+		}
+		return a
+	}
+	a, b := mk(), mk()
+	first, other := a, b
+	if b.Term < a.Term {
+		first, other = b, a
+	}
+	if g.r.Intn(4) != 0 {
+		f := other.Props[0]
+		first.Redecl = &redecl{Term: other.Term, IRI: other.IRI, Field: f.Term, FieldIRI: f.IRI + "_R"}
+	}
+	a.Second = b
+	if g.r.Intn(2) == 0 {
+		return a
+	}
+	t := &typ{Term: g.term("T"), TypeScoped: g.r.Intn(2) == 0}
+	t.IRI = vocab + t.Term
+	who := &prop{Term: g.term("p"), Kind: "node", Child: a, Multi: g.r.Intn(3) == 0, Scoped: g.r.Intn(3) == 0}
+	who.IRI = vocab + who.Term
+	own := &prop{Term: g.term("p"), Kind: "lit"}
+	own.IRI = vocab + own.Term
+	t.Props = []*prop{own, who}
+	return t
+}
+
 func (g *gen) id(iri string) string {
 	if g.prefix && strings.HasPrefix(iri, vocab) {
 		return "ex:" + iri[len(vocab):]
@@ -257,6 +302,9 @@ func (g *gen) typeDefs(t *typ, out map[string]any) {
 				props[k] = g.id(sd.IRI)
 			}
 		}
+		if rd := t.Redecl; rd != nil {
+			props[rd.Term] = map[string]any{"@id": g.id(rd.IRI), "@context": map[string]any{rd.Field: g.id(rd.FieldIRI)}}
+		}
 		switch t.Propagate {
 		case 1:
 			props["@propagate"] = true
@@ -269,6 +317,9 @@ func (g *gen) typeDefs(t *typ, out map[string]any) {
 		for k, v := range props {
 			out[k] = v
 		}
+	}
+	if t.Second != nil {
+		g.typeDefs(t.Second, out)
 	}
 	for _, p := range t.Props {
 		if p.Kind == "node" && !p.Scoped {
@@ -410,6 +461,17 @@ func (g *gen) node(t *typ, penv env, leak map[string]bool, docPath []string, par
 		obj[g.idKey()] = fmt.Sprintf("urn:n:%d", g.n)
 	}
 	obj[g.typeKey()] = t.Term
+	if t.Second != nil {
+		if g.r.Intn(2) == 0 {
+			obj[g.typeKey()] = []any{t.Term, t.Second.Term}
+		} else {
+			obj[g.typeKey()] = []any{t.Second.Term, t.Term}
+		}
+		g.features["two-types"] = true
+		if t.Redecl != nil || t.Second.Redecl != nil {
+			g.features["type-term-redeclared"] = true
+		}
+	}
 	if t.LocalCtx != nil {
 		lc := map[string]any{}
 		for k, v := range t.LocalCtx {
@@ -439,6 +501,11 @@ func (g *gen) node(t *typ, penv env, leak map[string]bool, docPath []string, par
 		for k, v := range t.Shadow {
 			ts[k] = v
 		}
+		if t.Second != nil {
+			for _, p := range t.Second.Props {
+				ts[p.Term] = propDefn(p)
+			}
+		}
 		active = penv.with(ts)
 		// this node's own type-scoped definitions win here, also for the resolvers
 		for k := range ts {
@@ -452,7 +519,10 @@ func (g *gen) node(t *typ, penv env, leak map[string]bool, docPath []string, par
 			g.features["propagate-false-explicit"] = true
 		}
 	}
-	g.nodes = append(g.nodes, nodeInfo{DocPath: cp(docPath), Parts: cp(parts), TypeTerm: t.Term, TypeIRI: t.IRI, IsType: t.TypeScoped, TopVisible: topVisible})
+	g.nodes = append(g.nodes, nodeInfo{DocPath: cp(docPath), Parts: cp(parts), TypeTerm: t.Term, TypeIRI: t.IRI, IsType: t.TypeScoped, TopVisible: topVisible, Multi: t.Second != nil})
+	if t.Second != nil {
+		g.nodes = append(g.nodes, nodeInfo{DocPath: cp(docPath), Parts: cp(parts), TypeTerm: t.Second.Term, TypeIRI: t.Second.IRI, IsType: true, TopVisible: topVisible, Multi: true})
+	}
 	// context-only resolvers (type term + field path): they can start at a type term defined
 	// at the top level of the context document and walk through properties (incl. their
 	// property-scoped contexts); they cannot enter a nested type-scoped context, and a local
@@ -486,7 +556,18 @@ func (g *gen) node(t *typ, penv env, leak map[string]bool, docPath []string, par
 			}
 		}
 	}
-	for _, p := range t.Props {
+	allProps := t.Props
+	nOwn := len(t.Props)
+	firstRoot := myRoot
+	if t.Second != nil {
+		allProps = append(append([]*prop{}, t.Props...), t.Second.Props...)
+	}
+	for pi, p := range allProps {
+		myRoot = firstRoot
+		if pi >= nOwn {
+			// a field of the second type: the context-only resolvers start at that type's term
+			myRoot = ctxRoot{typeTerm: t.Second.Term, typeIRI: t.Second.IRI, prefixLen: len(parts), docLen: len(docPath), ok: topVisible && t.LocalCtx == nil}
+		}
 		iri := active[p.Term].IRI
 		declared := active[p.Term].DT
 		n := 1
@@ -621,8 +702,10 @@ func (g *gen) randomDoc() *gdoc {
 	g.alias = g.r.Intn(3) == 0
 	g.prefix = g.r.Intn(3) == 0
 	var t *typ
-	kind := g.r.Intn(12)
+	kind := g.r.Intn(13)
 	switch {
+	case kind == 12:
+		t = g.dualSchema()
 	case kind < 6:
 		t = g.schema(1+g.r.Intn(3), "")
 	case kind < 9:
